@@ -375,6 +375,7 @@ class Ctx:
         return True
 
     def note(self, msg):
+        self.last_note = msg
         print("[%s %6.1fs] %s" % (self.prop, time.time() - self.t0, msg))
         sys.stdout.flush()
 
